@@ -107,8 +107,14 @@ def cases(seed, tier):
                                      'outcome': ['err', 'E-' + hn]})
                 if prng.random() < 0.5:
                     # ... and the new attempt has no successors at all
-                    T['edges'] = [e for e in T['edges']
-                                  if e['clause'] == 'on-error']
+                    # (as long as no task loses its only inbound edge)
+                    targets = set(e['to'] for e in T['edges']
+                                  if e['clause'] != 'on-error')
+                    others = set(e['to'] for X in Q['tasks'] if X is not T
+                                 for e in X['edges'])
+                    if targets <= others:
+                        T['edges'] = [e for e in T['edges']
+                                      if e['clause'] == 'on-error']
                 handled = handled or True
         ops = []
         for _ in range(prng.randint(1, 3)):
